@@ -22,14 +22,14 @@ def run(ctx):
     ctx.rule = ("EPAny/EPStar scopes as C21; real variational_gamma calls on corpus (contemporaneous, polytomies, "
                 "historical, internal samples, diploid individuals) x settings; non-trivial = call with >= 2 free nodes")
     ctx.assumptions = ["shape = mean^2/variance compared with max_shape at relative slack 1e-9"]
-    cfg = ctx.write_cfg("epany.cfg", constants={"Graphs": "{1,2,3,4,5}", "IncrIds": "{1,2,3,4}", "Caps": "{2,1000}",
-                                                "MaxVisits": 3 if q else 4},
+    cfg = ctx.write_cfg("epany.cfg", constants={"Graphs": "{1,2,3,4,5}", "IncrIds": "{1,2,3,4}", "Caps": "{2,1000}" if q else "{2,3,1000}",
+                                                "MaxVisits": 3},
                         invariants=["ShapeCapped", "ProperOrNeverUpdated", "Book"], constraints=["Bounded"])
-    ctx.tlc("EPAny", cfg, workers=8, required_actions=("Choose",))
+    ctx.tlc("EPAny", cfg, workers=8 if q else 16, timeout=900 if q else 3400, required_actions=("Choose",))
     base = dict(max_parents=2, max_edges=3, counts=[0, 1, 2], spans=[1, 2], mu_halves=[2, 1], caps=[2, 3, 1000],
                 max_iters=2)  # larger counts / more iterations overflow TLC's 32-bit rationals
     cfg = ctx.write_cfg("epstar_cap.cfg", constants=ec.star_consts(**base), invariants=["ShapeCapped"], constraints=["NoOverflow"])
-    ctx.tlc("EPStar", cfg, workers=8)
+    ctx.tlc("EPStar", cfg, workers=8, timeout=900 if q else 3400)
     corpus = ec.ep_corpus(ctx)
     settings = [{"max_iterations": 1}, {"max_iterations": 3, "max_shape": 1.5},
                 {"max_iterations": 2, "max_shape": 3.0, "singletons_phased": False},
